@@ -7,3 +7,4 @@ CONSTANTS
   Depth = 3
   Misuse = FALSE
   Race = FALSE
+  Quiet = FALSE
